@@ -10,6 +10,7 @@ import (
 
 	dawn "github.com/pgavlin/dawn"
 	"github.com/pgavlin/dawn/label"
+	dawnos "github.com/pgavlin/dawn/lib/os"
 	"github.com/pgavlin/dawn/util"
 	"github.com/pgavlin/dawn/verifharness/core"
 	"go.starlark.net/starlark"
@@ -378,6 +379,40 @@ func c17Trees(c *core.Ctx) {
 			sort.Strings(want)
 			if fmt.Sprint(got) != fmt.Sprint(want) {
 				c.Violation(id, "", "glob-selects-wrong-files", map[string]any{"include": include, "exclude": exclude, "files": all, "glob": got, "reference": want})
+			}
+			// os.glob (lib/os): same patterns, rooted in the thread's working directory, and it
+			// also lists directories and the build-state files
+			th := &starlark.Thread{Name: "osglob"}
+			util.Chdir(th, root)
+			ov, oerr := dawnos.Glob(th, dawnos.NewGlob(), starlark.Tuple{strList(include), strList(exclude)}, nil)
+			c.EvalN(1)
+			if oerr != nil {
+				c.Violation(id, "", "os-glob-error", map[string]any{"include": include, "exclude": exclude, "error": oerr.Error()})
+			} else {
+				var ogot []string
+				oit := ov.(*starlark.List).Iterate()
+				for oit.Next(&e) {
+					ogot = append(ogot, string(e.(starlark.String)))
+				}
+				oit.Done()
+				sort.Strings(ogot)
+				var owant []string
+				filepath.Walk(root, func(p string, info os.FileInfo, err error) error {
+					if err != nil || p == root {
+						return nil
+					}
+					rel, _ := filepath.Rel(root, p)
+					rel = filepath.ToSlash(rel)
+					if refMatchSet(inT, rel) && !(len(exclude) > 0 && refMatchSet(exT, rel)) {
+						owant = append(owant, rel)
+					}
+					return nil
+				})
+				sort.Strings(owant)
+				if fmt.Sprint(ogot) != fmt.Sprint(owant) {
+					c.Violation(id, "", "os-glob-selects-wrong-paths", map[string]any{"include": include, "exclude": exclude, "os_glob": ogot, "reference": owant})
+				}
+				c.Count("os_glob_paths_matched", int64(len(owant)))
 			}
 			c.Distinct(fmt.Sprintf("tree-%x", hashStr(fmt.Sprint(include, exclude, files))))
 			c.Count("tree_files_matched", int64(len(want)))
